@@ -125,3 +125,68 @@ func piece_timerArm(ef, wf *ast.File) (string, error) {
 	return "/-- writer.go: the functions that arm the linger timer of a batch (set a `timer` field or call Reset on one) -/\n" +
 		"def timerArmSites : List String := [" + strings.Join(names, ", ") + "]\n\n", nil
 }
+
+// piece_readRecord decides whether (*writerRecords).ReadRecord starts every record from a clean slate: either the
+// reused `record` field is assigned a fresh composite literal that leaves Key and Value nil, or both Key and Value are
+// explicitly assigned nil somewhere in the function (before / instead of the conditional assignments).
+func piece_readRecord(ef, wf *ast.File) (string, error) {
+	fd := findFunc(wf, "writerRecords", "ReadRecord")
+	if fd == nil || fd.Body == nil {
+		return "", fmt.Errorf("writer.go: (*writerRecords).ReadRecord not found")
+	}
+	isNil := func(e ast.Expr) bool {
+		id, ok := e.(*ast.Ident)
+		return ok && id.Name == "nil"
+	}
+	fresh := false
+	nilKey, nilValue := false, false
+	ast.Inspect(fd.Body, func(n ast.Node) bool {
+		as, ok := n.(*ast.AssignStmt)
+		if !ok || len(as.Lhs) != 1 || len(as.Rhs) != 1 {
+			return true
+		}
+		sel, ok := as.Lhs[0].(*ast.SelectorExpr)
+		if !ok {
+			return true
+		}
+		switch sel.Sel.Name {
+		case "record":
+			rhs := as.Rhs[0]
+			if u, ok := rhs.(*ast.UnaryExpr); ok {
+				rhs = u.X
+			}
+			if cl, ok := rhs.(*ast.CompositeLit); ok {
+				clean := true
+				for _, el := range cl.Elts {
+					kv, ok := el.(*ast.KeyValueExpr)
+					if !ok { // positional literal: cannot tell
+						clean = false
+						continue
+					}
+					if id, ok := kv.Key.(*ast.Ident); ok && (id.Name == "Key" || id.Name == "Value") && !isNil(kv.Value) {
+						clean = false
+					}
+				}
+				if clean {
+					fresh = true
+				}
+			}
+		case "Key":
+			if inner, ok := sel.X.(*ast.SelectorExpr); ok && inner.Sel.Name == "record" && isNil(as.Rhs[0]) {
+				nilKey = true
+			}
+		case "Value":
+			if inner, ok := sel.X.(*ast.SelectorExpr); ok && inner.Sel.Name == "record" && isNil(as.Rhs[0]) {
+				nilValue = true
+			}
+		}
+		return true
+	})
+	v := "false"
+	if fresh || (nilKey && nilValue) {
+		v = "true"
+	}
+	return "/-- writer.go (*writerRecords).ReadRecord: every record starts with Key = Value = nil (the reused Record is\n" +
+		"replaced by a fresh literal, or both fields are explicitly set to nil) -/\n" +
+		"def readRecordResets : Bool := " + v + "\n\n", nil
+}
